@@ -173,6 +173,37 @@ main(int argc, char **argv)
 		p.defer_acks = (idx % 5) == 2;      /* completion-style output on split buffers */
 		p.c.tx_key = vf_u64(&r);
 		p.s.tx_key = vf_u64(&r);
+		if ((idx % 6) == 4) {
+			/* a seventh of the sessions run on contexts that have already carried a connection: another suite and
+			   version of the plan, ended in order, abandoned in the middle of the data, or abandoned in mid-handshake.
+			   (What is fixed when a context is initialised - buffers, certificates, implementations - stays.) */
+			const sv_pair *pv0 = &sv[(size_t)((idx * 13 + 5) % nsv)];
+			tp_cfg c0 = cc, s0 = sc;
+			uint16_t sl0[1];
+			int how = (int)((idx / 6) % 3);
+			if (tp_key_for_suite(pv0->s, 0) == sc.keykind || tp_key_for_suite(pv0->s, 1) == sc.keykind) {
+				sl0[0] = pv0->s->id; c0.suites = sl0; c0.nsuites = 1;
+				c0.vmin = 0x0301; c0.vmax = pv0->version; s0.vmin = 0x0301; s0.vmax = 0x0303;
+			}
+			vf_bytes(&r, c0.seed, 32); vf_bytes(&r, s0.seed, 32);
+			if (tp_ep_start(&p.c, &c0) && tp_ep_start(&p.s, &s0)) {
+				if (how == 2) { long q; for (q = 0; q < 5; q ++) if (!tp_pump_step(&p)) break; }
+				else if (tp_handshake(&p, 2000000)) {
+					tp_run_data(&p, 1 + vf_below(&r, 3000), 1 + vf_below(&r, 3000), TP_W_MIXED, 2000000);
+					if (how == 0) tp_run_close(&p, (int)vf_below(&r, 3), 200000);
+					else { tp_act_write(&p.c, 100); tp_act_write(&p.s, 100); tp_act_flush(&p.c, 0); }
+				}
+				vf_stat("sessions_on_used_contexts", 1);
+				vf_distinct("previous_life", "%d/%04x->%04x", how, pv0->s->id, pv->s->id);
+				cc.reuse_ctx = 1; sc.reuse_ctx = 1;
+				/* the call counters of the validator wrappers start over with the judged connection */
+				if (p.c.xw) { p.c.xw->n_start_chain = p.c.xw->n_end_chain = p.c.xw->n_get_pkey = p.c.xw->n_start_cert = 0; p.c.xw->verdict_seen = 0; }
+				if (p.s.xw) { p.s.xw->n_start_chain = p.s.xw->n_end_chain = p.s.xw->n_get_pkey = p.s.xw->n_start_cert = 0; p.s.xw->verdict_seen = 0; }
+			}
+			p.c2s.rd = p.c2s.wr = 0; p.s2c.rd = p.s2c.wr = 0;
+			p.c.tx_key = vf_u64(&r);
+			p.s.tx_key = vf_u64(&r);
+		}
 		tm_pair_attach(&pm, &p);
 
 		if (!tp_ep_start(&p.c, &cc) || !tp_ep_start(&p.s, &sc)) {
